@@ -196,7 +196,7 @@ func (w *c07World) genSplit(r *kernel.Run, rng *kernel.Rng) *kernel.Tx {
 	if from == "" {
 		return nil
 	}
-	locked := r.Chain.App.BankKeeper.LockedCoins(r.Chain.Ctx(), kernel.ActorAddr(from))
+	locked, _ := r.Chain.SafeLockedCoins(kernel.ActorAddr(from))
 	coins := sdk.NewCoins()
 	for _, c := range locked {
 		if len(locked) == 1 || rng.P(0.7) {
